@@ -591,3 +591,82 @@ def variant_excluded_edges(view, enum_suffix, place_pred, variant):
             if tgt != keep:
                 excluded.add((b, tgt))
     return excluded
+
+
+# ---------------------------------------------------------------------------------------
+# G2 with several quantities: evaluate guard expressions on representative sample points
+
+_ARITH = {"Add": lambda a, b: a + b, "AddWithOverflow": lambda a, b: a + b, "AddUnchecked": lambda a, b: a + b,
+          "Sub": lambda a, b: a - b, "SubWithOverflow": lambda a, b: a - b,
+          "Mul": lambda a, b: a * b, "MulWithOverflow": lambda a, b: a * b}
+_ARITH_CALLS = [
+    (re.compile(r"(u64|u128|Uint128|Uint64|Uint256)::(checked_add|saturating_add)$|as std::ops::Add(<.*>)?>::add$"), lambda a, b: a + b),
+    (re.compile(r"(u64|u128|Uint128|Uint64|Uint256)::(checked_sub)$|as std::ops::Sub(<.*>)?>::sub$"), lambda a, b: a - b),
+    (re.compile(r"(u64|u128|Uint128|Uint64|Uint256)::(checked_mul|saturating_mul)$|as std::ops::Mul(<.*>)?>::mul$"), lambda a, b: a * b),
+]
+
+
+def expr_eval(view, operand, at, env, depth=0):
+    """Value of an operand at a sample point. env: list of (origin-set predicate, value). Follows copies,
+    primitive arithmetic (incl. *WithOverflow tuples) and checked_* calls over evaluable operands."""
+    if depth > 8:
+        return None
+    k = const_of(view, operand, at)
+    if k is not None:
+        return k
+    if operand["k"] not in ("copy", "move"):
+        return None
+    os_ = view.origins_of_operand(operand, at=at)
+    for pred, val in env:
+        if pred(os_):
+            return val
+    pl = operand["pl"]
+    l = pl["l"]
+    ds = [d for d in view.defs().get(l, []) if not (d[0] == "s" and d[3]["rv"]["r"] == "use" and d[3]["rv"]["op"]["k"] == "const")]
+    ds = [d for d in ds if view.def_reaches_killing(l, d[1], d[2] if d[0] == "s" else len(view.blocks[d[1]]["s"]), at)]
+    if len(ds) != 1:
+        return None
+    d = ds[0]
+    if d[0] == "s":
+        rv = d[3]["rv"]
+        dat = (d[1], d[2])
+        if rv["r"] == "bin" and rv["op"] in _ARITH:
+            a = expr_eval(view, rv["a"], dat, env, depth + 1)
+            b = expr_eval(view, rv["b"], dat, env, depth + 1)
+            if a is None or b is None:
+                return None
+            return _ARITH[rv["op"]](a, b)
+        if rv["r"] in ("use", "cast") and rv["op"]["k"] in ("copy", "move"):
+            return expr_eval(view, rv["op"], dat, env, depth + 1)
+        return None
+    t = d[2]
+    n = mname(t)
+    dat = view.at_term(d[1])
+    for rx, f in _ARITH_CALLS:
+        if rx.search(n) and len(t["args"]) == 2:
+            a = expr_eval(view, t["args"][0], dat, env, depth + 1)
+            b = expr_eval(view, t["args"][1], dat, env, depth + 1)
+            if a is None or b is None:
+                return None
+            return f(a, b)
+    if _TRANSPARENT_RE.search(n) and t["args"]:
+        return expr_eval(view, t["args"][0], dat, env, depth + 1)
+    return None
+
+
+def sample_walk(view, env, start=0):
+    """CFG walk with every comparison whose two sides evaluate under env decided; returns (reachable blocks,
+    number of decided comparisons)."""
+    decided = {}
+    for b, c, _ in switch_conds(view):
+        if c.kind != "cmp" or c.b is None:
+            continue
+        at = cond_at(view, c)
+        a = expr_eval(view, c.a, at, env)
+        bb = expr_eval(view, c.b, at, env)
+        if a is not None and bb is not None:
+            decided[b] = _num_truth(c.op, a, bb)
+
+    def decide(b, c):
+        return decided.get(b)
+    return region_walk(view, decide, start=start), len(decided)
